@@ -11,6 +11,7 @@ import (
 
 	"grits/zverif/explore"
 	"grits/zverif/harness"
+	"grits/zverif/ref"
 	"grits/zverif/vsched"
 )
 
@@ -18,6 +19,9 @@ type Prog struct {
 	Name string
 	Text string
 }
+
+// harnessDebug receives per-case debug lines (stderr of the worker; shown with VERIF_DEBUG=1).
+var harnessDebug = os.Stderr
 
 var corpusCache []Prog
 
@@ -112,6 +116,31 @@ func tierDelay(c *harness.Ctx) int {
 	return 1
 }
 
+// delayFor: the delay bound per program class. quick: 1 everywhere. thorough: 3 for the hand-written
+// driver corpus, 2 for the examples and the size-3 generated programs, 1 for the size-4 generated ones.
+func delayFor(c *harness.Ctx, name string) int {
+	if !c.Thorough() {
+		return 1
+	}
+	switch {
+	case strings.HasPrefix(name, "corpus/"):
+		return 3
+	case strings.HasPrefix(name, "gen4/"):
+		return 1
+	}
+	return 2
+}
+
+func horizonFor(c *harness.Ctx, name string) int {
+	if !c.Thorough() {
+		return 60
+	}
+	if strings.HasPrefix(name, "corpus/") {
+		return 70
+	}
+	return 150
+}
+
 func tierHorizon(c *harness.Ctx) int {
 	if c.Thorough() {
 		return 150
@@ -121,16 +150,75 @@ func tierHorizon(c *harness.Ctx) int {
 
 func capExecs(c *harness.Ctx) int64 {
 	if c.Thorough() {
-		return 400000
+		return 1500000
 	}
 	return 20000
 }
 
-// Replay re-executes a replay file of kind "schedule".
+// Replay re-executes a replay file (dispatch on its kind) and prints what happens on the current tree.
 func Replay(rp map[string]interface{}) {
 	r, _ := rp["replay"].(map[string]interface{})
 	if r == nil {
 		r = rp
+	}
+	kind, _ := r["kind"].(string)
+	fmt.Println("property    :", rp["property"], " key:", rp["key"])
+	switch kind {
+	case "typecheck", "term-roundtrip":
+		text, _ := r["program"].(string)
+		var ch []int
+		if l, ok := r["choices"].([]interface{}); ok {
+			for _, x := range l {
+				ch = append(ch, int(toF(x)))
+			}
+		}
+		g := TypecheckText(text, ch, nil)
+		fmt.Println("program     :\n" + text)
+		fmt.Println("parse error :", g.ParseErr)
+		fmt.Println("type error  :", g.TypeErr)
+		fmt.Println("panics      :", g.Panics, " blocked:", g.Blocked, " fuel exhausted:", g.FuelOut)
+		if p, err := ref.ParseProgram(text); err == nil {
+			v, _ := ref.CheckProgram(p, false)
+			fmt.Println("reference   :", v.Kind, v.Reason, v.Detail)
+		}
+		return
+	case "parse":
+		text, _ := r["text"].(string)
+		g := ParseText(text)
+		toks, ok := ref.Tokenize(text)
+		fmt.Printf("text        : %q\n", text)
+		fmt.Println("accepted    :", g.Accepted, " error:", g.Err, " panics:", g.Panics, " blocked:", g.Blocked, " fuel:", g.Fuel)
+		fmt.Println("declarations:", declKey(g.Decls))
+		fmt.Println("reference   : alphabet ok =", ok, " grammatical =", ok && ref.Recognize(toks), " declarations:", declKey(ref.Declarations(toks)))
+		return
+	case "history":
+		var hist, ch []int
+		if l, ok := r["history"].([]interface{}); ok {
+			for _, x := range l {
+				hist = append(hist, int(toF(x)))
+			}
+		}
+		if l, ok := r["choices"].([]interface{}); ok {
+			for _, x := range l {
+				ch = append(ch, int(toF(x)))
+			}
+		}
+		mode := int(toF(r["mode"]))
+		h := runHistory(hist, mode, ch)
+		for i, o := range h.outcomes {
+			solo, _ := soloOutcome(hist[i], mode)
+			fmt.Printf("run %d (program %d): %s   | alone in a fresh process: %s\n", i, hist[i], o.key(), solo.key())
+		}
+		fmt.Println("late prints :", h.late)
+		return
+	case "schedule", "schedule-pair":
+		// below
+	default:
+		fmt.Println("this kind of counterexample (" + kind + ") is not re-executed; recorded details:")
+		for k, v := range r {
+			fmt.Printf("  %s: %v\n", k, v)
+		}
+		return
 	}
 	text, _ := r["program"].(string)
 	mode := int(toF(r["mode"]))
@@ -142,6 +230,8 @@ func Replay(rp map[string]interface{}) {
 		}
 	}
 	ex := explore.RunOnce(text, explore.Config{Mode: mode, Monitor: mon}, ch, vsched.Options{}, false)
+	fmt.Println("program     :\n" + text)
+	fmt.Println("config      :", explore.Config{Mode: mode, Monitor: mon}, " schedule:", ch)
 	fmt.Println("parse error :", ex.ParseErr)
 	fmt.Println("type error  :", ex.TypeErr)
 	fmt.Println("outcome     :", ex.OutcomeKey())
